@@ -6920,10 +6920,18 @@ func (c *linkerContext) generateIsolatedHash(chunk *chunkInfo, channel chan []by
 	hashWriteLengthPrefixed(hash, chunk.outputSourceMap.Mappings)
 	hashWriteLengthPrefixed(hash, chunk.outputSourceMap.Suffix)
 
+	// How the source map is attached (a linking comment, the inline data, or
+	// nothing) is appended to the chunk after this hash has been computed
+	if chunk.outputSourceMap.HasContent() {
+		hashWriteUint32(hash, uint32(c.options.SourceMap))
+	}
+
 	// Also include the external legal comments in the hash. The file that holds
 	// them is also named after the chunk, so its name must change when they do.
+	// Whether the chunk links to that file is decided after this hash as well.
 	if len(chunk.externalLegalComments) > 0 {
 		hashWriteLengthPrefixed(hash, chunk.externalLegalComments)
+		hashWriteUint32(hash, uint32(c.options.LegalComments))
 	}
 
 	// Store the hash so far. All other chunks that import this chunk will mix
